@@ -12,8 +12,8 @@ for id in "$@"; do
   t=$(cd $WT && cargo test --workspace --no-fail-fast --offline 2>&1 | grep -E "^test result|FAILED|failed|^error")
   nfail=$(echo "$t" | grep -cE "FAILED|[1-9][0-9]* failed|^error")
   npass=$(echo "$t" | grep -E "^test result" | sed 's/.*ok\. \([0-9]*\) passed.*/\1/' | paste -sd+ | bc)
-  (cd $S/demo && sh ./run.sh $WT > $S/confirm_changed.txt 2>&1); rc_changed=$?
-  (cd $S/demo && sh ./run.sh $CL > $S/confirm_clean.txt 2>&1); rc_clean=$?
+  (cd $S/demo && bash ./run.sh $WT > $S/confirm_changed.txt 2>&1); rc_changed=$?
+  (cd $S/demo && bash ./run.sh $CL > $S/confirm_clean.txt 2>&1); rc_clean=$?
   git -C $WT checkout -q -- . ; git -C $WT clean -fdq -e target; git -C $CL checkout -q -- . ; git -C $CL clean -fdq -e target
   echo "$id: suite_failures=$nfail suite_passed=$npass demo_on_changed_rc=$rc_changed demo_on_clean_rc=$rc_clean"
 done
